@@ -14,7 +14,8 @@ CIRC = 'simulator:Circuit'
 
 UNDECIDED = [
     "random wirings against an oracle (enumeration of connection specifications) -- not decided",
-    "the message logic of check_signature -- not decided",
+    "the wording of check_signature's messages and its name-suggestion logic -- not decided "
+    "(decided: a message exists exactly for a shape mismatch, R15.7)",
 ]
 
 
@@ -50,6 +51,11 @@ def run(ck):
                  "inputs.items() with the same tuple discriminator; connect stores groups as "
                  "tuples, unnamed inputs under '_' and refuses '_' as a name", 'M0', 5)
 
+    R7 = ck.rule('R15.7', "a wrongly shaped input makes the start fail: valuediff_msg reports a "
+                 "message exactly when the actual shape (single / group of n) contradicts the "
+                 "expected one (None / n / (min, max)); check_signature raises on any message and "
+                 "on differing names", 'ordering domain', 3)
+
     # ------------------------------------------------------------------ R15.1
     n = 0
     for fi in prog.pkg_funcs(include_demo=True):
@@ -64,6 +70,18 @@ def run(ck):
                 res = [c for c in nodes_calling(g, 'resolve')
                        if '_resolver' in recv(node_calls(c, 'resolve')[0]) and g.dominates(c, w)]
                 ok = bool(conn) and bool(res)
+                # resolving may CREATE blocks ('_not_NAME' inverters, '_ctrl'): it has to be
+                # complete before the connection pass starts, or those blocks stay unwired
+                order = ok and all(any(g.dominates(r, c) for r in res) for c in conn) and not any(
+                    r.id in g.reachable_from(c) and w.id in g.reachable_from(r)
+                    for c in conn for r in nodes_calling(g, 'resolve'))
+                ck.ob(R1, f"{fi.fid} :: names resolved before the connection pass", order,
+                      "self._resolver.resolve() completes before self._finalize() starts: blocks "
+                      "created while resolving names ('_not_NAME', '_ctrl') are wired by the pass"
+                      if order else
+                      "the name resolver runs (also) after the connection pass: an inverter "
+                      "'_not_NAME' it creates for a filter is never connected (inputs stay names, "
+                      "no iconnections/oconnections) in the frozen circuit", fi, x)
                 ck.ob(R1, f"{fi.fid} :: {norm1(x)}", ok,
                       "the flag is set after the connection pass and after the name resolution"
                       if ok else
@@ -277,6 +295,9 @@ def run(ck):
           "an event destination must be an SBlock" if ok else
           "an event destination of the wrong kind is not refused", ev, calls[0] if calls else ev.node)
 
+    # ------------------------------------------------------------------ R15.7
+    _r15_7(ck, R7)
+
     # ------------------------------------------------------------------ R15.6
     isig = prog.func('block:CBlock.input_signature')
     gc = prog.func('block:CBlock.get_conf')
@@ -327,3 +348,77 @@ def run(ck):
     ck.ob(R6, f"{cn.fid} :: unnamed inputs are single", bool(multi),
           "a sequence among the unnamed inputs raises" if multi else
           "a nested sequence among the unnamed inputs is accepted", cn, cn.node)
+
+
+def _r15_7(ck, R7):
+    from sa.minieval import MiniEval, MSG
+    prog = ck.prog
+    cs = prog.func('block:CBlock.check_signature')
+    vd = None
+    for x in own_nodes(cs.node):
+        pass
+    for st in cs.node.body:
+        if isinstance(st, ast.FunctionDef) and st.name == 'valuediff_msg':
+            vd = st
+    ck.need(R7, vd is not None and len(vd.args.args) == 3,
+            "check_signature.<locals>.valuediff_msg(name, value, expected) not found")
+    pn, pv, pe = [a.arg for a in vd.args.args]
+    values = [None, 0, 1, 2, 3]
+    expecteds = [None, 0, 1, 2, 3] + [(a, b) for a in (None, 0, 1, 2) for b in (None, 1, 2, 3)] + \
+        [[1, 2]]
+
+    def want(value, expected):
+        if expected is None:
+            return value is None
+        if value is None:
+            return False
+        if isinstance(expected, int):
+            return value == expected
+        lo, hi = expected
+        return (lo is None or value >= lo) and (hi is None or value <= hi)
+    bad = []
+    n = 0
+    for v in values:
+        for e in expecteds:
+            n += 1
+            ck.abstract_cases += 1
+            out = MiniEval(R7, {pn: 'x', pv: v, pe: e}).run(vd.body)
+            good = want(v, e)
+            if out[0] != 'return' or (out[1] is None) != good:
+                bad.append(f"value={v!r}, expected={e!r}: {out} (a message is "
+                           f"{'not ' if good else ''}expected)")
+    ck.ob(R7, f"{cs.fid}.<locals>.valuediff_msg :: message iff mismatch", not bad,
+          f"evaluated on {n} (actual, expected) shape pairs: a message is returned exactly for a "
+          f"mismatch" if not bad else "; ".join(bad[:4]), cs, vd)
+    # an invalid expected item is an error of the caller, not a silent pass
+    out = MiniEval(R7, {pn: 'x', pv: 1, pe: (1, 2, 3)}).run(vd.body)
+    ck.ob(R7, f"{cs.fid}.<locals>.valuediff_msg :: malformed expectation raises", out[0] == 'raise',
+          "a malformed (min, max) item raises" if out[0] == 'raise' else
+          f"a malformed expected item gives {out}", cs, vd)
+    # check_signature raises whenever a message exists / the names differ
+    g = ck.cfg(cs.fid, 'M0')
+    raises = nodes_where(g, lambda n_: isinstance(n_.ast, ast.Raise) and n_.kinds == {'N:ValueError'},
+                         kinds=('stmt',))
+    errs = nodes_where(g, lambda n_: isinstance(n_.ast, ast.Assign) and any(
+        isinstance(c, ast.Call) and call_name(c) == 'valuediff_msg' for c in ast.walk(n_.ast.value)))
+    ok = False
+    why = "no assignment collects the messages of valuediff_msg"
+    if len(errs) == 1:
+        var = norm(errs[0].ast.targets[0])
+        comp = errs[0].ast.value
+        call = [c for c in ast.walk(comp) if isinstance(c, ast.Call) and call_name(c) == 'valuediff_msg'][0]
+        args_ok = len(call.args) == 3 and isinstance(call.args[1], ast.Subscript) and \
+            norm(call.args[1].slice) == norm(call.args[0])
+        keep_ok = isinstance(comp, ast.ListComp) and all(
+            [norm(c) for c in gen.ifs] in ([], ['msg is not None']) or
+            all('is not None' in norm(c) for c in gen.ifs) for gen in comp.generators)
+        r = [x for x in raises if g.has_guard(x, var, True) and g.dominates(errs[0], x)]
+        ok = args_ok and keep_ok and bool(r)
+        why = ("every non-None message is kept and a non-empty list raises ValueError" if ok else
+               f"messages of valuediff_msg do not lead to `raise ValueError` (args_ok={args_ok}, "
+               f"kept={keep_ok}, raise under `{var}`={bool(r)})")
+    ck.ob(R7, f"{cs.fid} :: any message raises", ok, why, cs, errs[0].ast if errs else cs.node)
+    names = [x for x in raises if any('.keys()' in t and p for t, p in g.guard_texts(x))]
+    ck.ob(R7, f"{cs.fid} :: differing names raise", bool(names),
+          "differing input names raise ValueError" if names else
+          "differing input names do not raise", cs, cs.node)
